@@ -3,13 +3,16 @@
 PROPS = {
     'C11': {
         'lean': ['Netpol.Properties.C11', 'Netpol.Tie.Consts'],
-        'families': [('alg', 3000, 150000)],
+        'families': [('alg', 3000, 150000), ('exposure', 150, 6000)],
+        'accept_props': ['C11'],
+        'shard_min': 25,
         'rule': 'operation sequences (1-30 ops over a pool of 4 connection sets; constructors, Union, Intersection, Subtract, Copy, '
                 'ReplaceNamedPort) from one PRNG state; after every op all pool members and all pairwise predicates are observed. '
-                'non-trivial and distinct = distinct (operation, emptiness of operands, resulting set) triples inside the claimed domain',
+                'non-trivial and distinct = distinct (operation, emptiness of operands, resulting set) triples inside the claimed domain. '
+                'exposure family: at the output level, an exposure entry whose structured form is the three full ranges and no name is written All Connections',
         'trusted_base': ['np-guard/models interval.CanonicalSet is modelled (recursive scan instead of binary search), tied by K-diff'],
         'assumptions': ['ports within 1..65535, protocols TCP/UDP/SCTP',
-                        'claimed domain: sets built by MakeConnectionSet/GetAllTCPConnections/AddConnection (on a set not in AllowAll form), then Union/Intersection/Subtract/Copy'],
+                        'claimed domain: sets built by MakeConnectionSet/GetAllTCPConnections/AddConnection (on a set not in AllowAll form), then Union/Intersection/Subtract/Copy/ReplaceNamedPortWithMatchingPortNum'],
     },
     'C01': {
         'lean': ['Netpol.Properties.C01'],
